@@ -17,6 +17,11 @@ EVIDENCE = VERIF / "evidence"
 REPLAYS = VERIF / "replays"
 WORK = VERIF / "work"
 REPO = Path(os.environ.get("VERIF_REPO", "/repo"))
+if REPO.resolve() != Path("/repo"):
+    # self-test on a scratch copy of the repository: its evidence and replay files must not replace
+    # the ones that describe /repo itself
+    EVIDENCE = WORK / "selftest-evidence"
+    REPLAYS = WORK / "selftest-replays"
 PYTHON = os.environ.get("VERIF_PYTHON", "/venv/bin/python")
 NCPU = max(1, min(16, os.cpu_count() or 1))
 
